@@ -1,9 +1,71 @@
-// Package c18: check for property C18 (stub until implemented).
+// Package c18: HD child key derivation matches BIP32 and threshold signatures verify under the child
+// key (ENUM + the netrun runner).
+//
+// Part 1 enumerates parents x paths and compares crypto/ckd with the reference BIP32 public derivation
+// of verif/internal/ref (itself cross-checked on every node against btcutil/hdkeychain v1.1.0 and the
+// published BIP32 vectors before the library is looked at). Part 2 signs with the vendored 5-party t=2
+// key under derived child keys for every enumerated (path, signer subset) and for all two-step
+// derive->sign->derive'->sign sequences.
 package c18
 
-import "verif/internal/core"
+import (
+	"fmt"
+	"os"
+	"runtime"
+
+	logging "github.com/ipfs/go-log"
+
+	"verif/internal/core"
+)
 
 // Implemented reports whether this check is built.
-const Implemented = false
+const Implemented = true
 
-func Run(r *core.Run) { r.Cap("not implemented") }
+// finding is a violation produced by a (parallel) job; findings are reported in job order so that the
+// stored counterexample is the first one in enumeration order.
+type finding struct {
+	key, what string
+	record    interface{}
+}
+
+func workers() int {
+	n := runtime.NumCPU()
+	if n > 16 {
+		n = 16
+	}
+	if n < 1 {
+		n = 1
+	}
+	return n
+}
+
+func infra(format string, a ...interface{}) {
+	fmt.Fprintf(os.Stderr, "C18 INFRASTRUCTURE ERROR (reference model, not the library): "+format+"\n", a...)
+	os.Exit(2)
+}
+
+func Run(r *core.Run) {
+	thorough := r.Tier == "thorough"
+	_ = logging.SetLogLevel("tss-lib", "fatal") // the refusals enumerated below are logged as errors by the library
+
+	selfCheckReference(r)
+	runVectors(r)
+	runDerivation(r, thorough)
+	runSigning(r, thorough)
+
+	r.Assume("I_L >= n, I_L = 0 and 'child is the point at infinity' cannot be reached by enumeration (probability <= 2^-127 per step); 'invalid intermediate keys are refused' is covered only by an off-curve parent key")
+	r.Assume("signing part uses paths of length >= 1: for the empty path the child key is the parent key, so 'verifies under the child and not under the parent' has no admissible instance")
+	r.Assume("each derivation starts from a fresh deep copy (re-parsed key files) of the stored key data, as UpdatePublicKeyAndAdjustBigXj rewrites the slice it is given in place by design")
+
+	ev := int(r.Get("cases_derive_hierarchy") + r.Get("cases_derive_step") + r.Get("cases_refused") +
+		r.Get("cases_vector") + r.Get("cases_signing_runs") + r.Get("cases_roundtrip"))
+	r.Set("evaluations", ev)
+	r.Set("distinct_nontrivial", r.NDistinct("nontrivial"))
+	r.Set("distinct_child_keys", r.NDistinct("childkeys"))
+	r.Set("distinct_signatures", r.NDistinct("signatures"))
+	r.Set("rule", "derivation: every (parent, path) with parent in the listed parent set and path in all sequences of length 0..L over {0,1,2^31-1} "+
+		"(plus length 5 over {0,1} in thorough), every single-position replacement by 2^31 / 2^32-1, depth parents 253/254/255, an off-curve parent, "+
+		"all non-hardened segments of the BIP32 vector chains; signing: paths x (t+1)-subsets and all ordered pairs of paths per subset. "+
+		"A case is one canonical string 'kind|parent|path[|subset]'; non-trivial = path length >= 1 (a derivation or refusal actually happened) or a signing run; "+
+		"distinct_child_keys counts distinct derived serialised keys (no two cases collapsed)")
+}
